@@ -364,8 +364,14 @@ def _run_matching(case, network, mt, mi, ctx, cls, stats):
     for rnd, rad in enumerate(rounds):
         ctx.count("matchings")
         arg = tracks[0] if mt["mode"] != "collection" else TrackCollection(tracks)
-        r = M.call(mapOnNetwork, arg, network, mt["noise"], mt["tcost"], rad)
-        base = {"matching": mi, "mode": mt["mode"], "round": rnd, "radius": rad, "noise": mt["noise"]}
+        verbose = (mi + rnd + len(tracks[0])) % 4 == 1          # the documented verbose option (progress bars)
+        if verbose:
+            r = M.call(mapOnNetwork, arg, network, mt["noise"], mt["tcost"], rad, False, None, True)
+            cls.add("verbose_option")
+        else:
+            r = M.call(mapOnNetwork, arg, network, mt["noise"], mt["tcost"], rad)
+        base = {"matching": mi, "mode": mt["mode"], "round": rnd, "radius": rad, "noise": mt["noise"],
+                "verbose": verbose}
         if M.is_raised(r):
             w = dict(base)
             w.update({"what": "mapOnNetwork raised " + r.brief(), "raised": r})
